@@ -28,6 +28,7 @@ type Baseline struct {
 	Note        string              `json:"note"`
 	Obligations []BaselineEntry     `json:"obligations"`
 	Abstracted  map[string][]string `json:"abstracted,omitempty"` // per function: callees without contract that were havocked (not executed inline) on the pinned tree
+	BoundedUnreliable map[string][]string `json:"bounded_unreliable,omitempty"` // per function: obligations that the bounded fall-back refutes on the pinned tree although they hold (its refutations of these are not believed)
 }
 
 type KnownFinding struct {
@@ -146,6 +147,14 @@ func cmdBaseline(args []string) int {
 					b.Abstracted[key] = a
 				}
 			}
+			if prev != nil && prev.BoundedUnreliable != nil {
+				if a, ok := prev.BoundedUnreliable[key]; ok {
+					if b.BoundedUnreliable == nil {
+						b.BoundedUnreliable = map[string][]string{}
+					}
+					b.BoundedUnreliable[key] = a
+				}
+			}
 			continue
 		}
 		delete(keep, key)
@@ -154,6 +163,40 @@ func cmdBaseline(args []string) int {
 			b.Abstracted = map[string][]string{}
 		}
 		b.Abstracted[key] = append([]string{}, rep.Abstracted...)
+		if fn := p.FuncByKey[key]; fn != nil && len(findLoops(fn)) > 0 && c.usableAtCalls() {
+			// self-test of the bounded fall-back on the pinned tree: whatever it refutes here holds in fact (or is not claimed),
+			// so its refutations of these obligations on a changed tree are not believed
+			seen := map[string]bool{}
+			if rep.Wall > 20 {
+				// too expensive to self-test: none of its bounded refutations is believed
+				if b.BoundedUnreliable == nil {
+					b.BoundedUnreliable = map[string][]string{}
+				}
+				b.BoundedUnreliable[key] = []string{"*"}
+			} else {
+				cfgB := cfg
+				cfgB.Unroll = 3
+				cfgB.TimeoutS = 10
+				repB := func() (r *FuncReport) {
+					defer func() {
+						if e := recover(); e != nil {
+							r = &FuncReport{Key: key}
+						}
+					}()
+					return verifyFunction(p, c, cfgB, nil)
+				}()
+				for _, r := range repB.Results {
+					if r.Status == "refuted" && r.Kind != "inv" && r.Kind != "decreases" && !seen[r.Name] {
+						seen[r.Name] = true
+						if b.BoundedUnreliable == nil {
+							b.BoundedUnreliable = map[string][]string{}
+						}
+						b.BoundedUnreliable[key] = append(b.BoundedUnreliable[key], r.Name)
+						fmt.Printf("   bounded fall-back refutes %s on the pinned tree: not believed on changed trees\n", r.Name)
+					}
+				}
+			}
+		}
 		fmt.Printf("== %s (%.1fs)\n", key, rep.Wall)
 		for _, e := range rep.Errors {
 			fmt.Println("   ERROR:", e)
@@ -399,8 +442,14 @@ func cmdCheck(args []string) int {
 				}()
 				return verifyFunction(p, c, cfgB, filter)
 			}()
+			unreliable := map[string]bool{}
+			if base.BoundedUnreliable != nil {
+				for _, n := range base.BoundedUnreliable[key] {
+					unreliable[n] = true
+				}
+			}
 			for _, r := range repB.Results {
-				if r.Status == "refuted" && r.Kind != "inv" && r.Kind != "decreases" {
+				if r.Status == "refuted" && r.Kind != "inv" && r.Kind != "decreases" && !unreliable[r.Name] && !unreliable["*"] {
 					r.Output = fmt.Sprintf("bounded fall-back (loops unrolled %d times, loop clauses of the contract could not be bound): the counterexample is exact for runs that need no more iterations\n", k) + r.Output
 					got[r.Name] = r
 					boundedHits = append(boundedHits, r.Name)
